@@ -145,6 +145,8 @@ func runC15(c *Ctx) {
 	checkFloatDigits(c, "R15i")
 	c.Rule("R15j", ruleTextIntParserGuard, 1)
 	checkIntParserGuard(c, "R15j")
+	c.Rule("R15l", ruleTextCommentPresence, 1)
+	checkCommentPresence(c, "R15l")
 	c.Rule("R15k", ruleTextUnquoteOnly, 2)
 	checkUnquoteOnly(c, "R15k")
 	c.Rule("R15h", ruleTextOpaqueUDT, 1)
